@@ -22,6 +22,15 @@ CLAIMED = {
             "positions were drawn. A structural necessary condition; binding of the hash/Merkle scheme is assumed.",
             "rustc nightly type checker + MIR construction; the Python dominance/slice engine; hash and vector "
             "commitment binding (cryptographic)", "DESIGN.md section 4, C03"),
+    "C05": ("call-graph panic-site inventory from the untrusted-input entry points, discharged by guard intervals (A3), struct-field invariants (A4), callee Ok-postconditions, relational index patterns, and a reviewed table whose relied-upon guards are re-verified on every run",
+            "Enumerates every panic / abort / unbounded-allocation site (MIR Assert terminators, diverging calls, may-panic std calls, "
+            "allocation sizes) reachable from Proof::from_bytes, every Deserializable::read_from, the batch Merkle functions, "
+            "AirContext::new* and winter_verifier::verify, and decides each one: proved in range by intervals over all inputs, "
+            "covered by a reviewed reason (with its guard re-checked), or reported. Two genuine API-level defects are recorded as "
+            "known findings. Termination of decoding loops and the bodies of field arithmetic / hash permutations / user Air code "
+            "are outside the decided clause.",
+            "rustc MIR incl. overflow/bounds Assert terminators; the may-panic table for core/alloc leaves; reviewed reasons in "
+            "wfstatic/tables/panic_sites.json; user Air implementations do not panic", "DESIGN.md section 4, C05"),
     "C09": ("MIR must-pass-through (per-iteration and function-level edge cuts), comparison-direction canonicalisation, def-use provenance on FriVerifier::{new,verify,verify_generic}",
             "Decides that each rejection check the FRI verifier's soundness rests on (length mismatch, unsupported folding "
             "factor, per-layer commitment opening, per-layer folding consistency, degree truncation, remainder degree bound, "
@@ -38,6 +47,12 @@ CLAIMED = {
             "delegates to such a decoder, little-endian only. Irreducibility of extension polynomials / Frobenius constants is "
             "not decided (they live in arithmetic code).",
             "rustc const evaluator; Python big-integer arithmetic; Sorenson-Webster bound for deterministic Miller-Rabin", "DESIGN.md section 4, C11"),
+    "C19": ("MIR must-pass-through guards on MerkleTree::verify/verify_batch/get_root/into_openings/map_indexes + the A5 panic inventory restricted to the batch Merkle entry points",
+            "Decides that single and batch verification accept only behind the root comparison over values derived from leaf, "
+            "proof nodes and (by control) the index, that get_root/into_openings validate indexes through map_indexes(..)? whose "
+            "range and duplicate checks are present, and that no panic site reachable from the batch-proof functions on "
+            "arbitrary malformed input is left undischarged. Collision resistance is assumed.",
+            "rustc MIR; reviewed reasons for relational index bounds in wfstatic/tables/panic_sites.json", "DESIGN.md section 4, C19"),
     "C20": ("call-graph effect analysis (ambient inputs) + MIR provenance/guard rules on DefaultRandomCoin",
             "Decides determinism structurally (no ambient input reachable; state is seed+counter), that draw_integers masks "
             "next()-bytes with domain_size-1 behind a power-of-two assertion, pushes a value only while len != num_values and "
@@ -49,6 +64,11 @@ CLAIMED = {
             "(and conjectured = min(field_security, _) - 1), and decides that each validate arm accepts only behind "
             "is_at_least(matching estimate, own threshold) or option-set membership. Monotonicity is value-level and not decided.",
             "rustc MIR; core::cmp::min semantics", "DESIGN.md section 4, C25"),
+    "C26": ("A5 panic inventory from SliceReader / ByteReader provided methods / primitive Deserializable impls",
+            "Decides the error-not-panic clause: every panic / overflow / allocation site reachable from the primitive decoders on "
+            "arbitrary bytes is proved in range, covered by a re-verified reviewed reason (check_eor guards), or reported. "
+            "The vint64 arithmetic and value equality of round trips are value-level and not decided.",
+            "rustc MIR; reviewed reasons in wfstatic/tables/panic_sites.json", "DESIGN.md section 4, C26"),
 }
 
 NOT_APPLICABLE = {
